@@ -207,6 +207,7 @@ func NewWorkspace(prefix string) *Workspace {
 		os.MkdirAll(filepath.Join(dir, d), 0o755)
 	}
 	os.WriteFile(filepath.Join(dir, "out/go/go.mod"), []byte("module verifgen\n\ngo 1.23\n"), 0o644)
+	prepareGenCache()
 	return &Workspace{Dir: dir}
 }
 
